@@ -154,7 +154,6 @@ Definition show_outcome (r : res (list string * option (value Z))) : string :=
   | Err e => "R:E:" ++ e
   | Wrong => "R:P"
   | Fuel => "R:F"
-  | Stale => "R:S"
   end.
 
 (* ---- dump of the compiled code *)
@@ -213,10 +212,65 @@ Definition show_compiled (c : @compiled Z) : string :=
 Definition has_marker (c : @compiled Z) : bool :=
   existsb (fun ch => existsb is_marker (snd ch)) (p_chunks c).
 
-(* one correspondence case: machine | static reference | checked reference | dump *)
-Definition show_case (fuel mfuel : nat) (p : program Z) : string :=
+(* ---- sessions: several inputs interpreted one after the other on the same Context.
+   Context::interpret_with_settings appends the new statements to the compiled program
+   and runs on from where the machine stopped; a failing input is rolled back completely
+   (interpreter, type checker, name resolution are restored from clones).  Since code is
+   only ever appended and chunks are referenced by index, running the inputs one by one
+   is running their concatenation; the model therefore evaluates input k as the program
+   (successful inputs so far ++ input k).  The result of an input is the value of its own
+   last expression statement. *)
+Definition has_expr (inp : program Z) : bool :=
+  existsb (fun s => match s with SExpr _ => true | _ => false end) inp.
+
+Definition show_input_outcome (r : res (list string * option (value Z))) (inp : program Z) : string :=
+  match r with
+  | Ok (_, Some v) => if has_expr inp then "V:" ++ show_value v else "C"
+  | Ok (_, None) => "C"
+  | Err e => "E:" ++ e
+  | Wrong => "P"
+  | Fuel => "F"
+  end.
+
+Definition out_of (r : res (list string * option (value Z))) : list string :=
+  match r with Ok (out, _) => out | _ => [] end.
+
+(* returns the outcomes per input, the output of the successful inputs, the statements
+   of the successful inputs *)
+Fixpoint run_session (run1 : program Z -> res (list string * option (value Z)))
+         (done : program Z) (out : list string) (inputs : list (program Z))
+  : list string * list string * program Z :=
+  match inputs with
+  | [] => ([], out, done)
+  | inp :: rest =>
+      let r := run1 (done ++ inp)%list in
+      match r with
+      | Ok (out', _) =>
+          let '(os, o, d) := run_session run1 (done ++ inp)%list out' rest in
+          (show_input_outcome r inp :: os, o, d)
+      | _ =>
+          let '(os, o, d) := run_session run1 done out rest in
+          (show_input_outcome r inp :: os, o, d)
+      end
+  end.
+
+Definition machine_run1 (mfuel : nat) (p : program Z) : res (list string * option (value Z)) :=
   let c := compile (procs zops) p in
-  (if has_marker c then "R:P" else show_outcome (Machine.run zops c mfuel))
-  ++ " || " ++ show_outcome (run_static zops fuel p)
-  ++ " || " ++ show_outcome (run_checked zops fuel p)
-  ++ " || " ++ show_compiled c.
+  if code_too_large c then Err "CodeTooLarge"
+  else if has_marker c then Wrong else Machine.run zops c mfuel.
+
+Definition show_session_result (x : list string * list string * program Z) : string :=
+  let '(os, o, _) := x in
+  "R:" ++ join " ;; " os ++ " ## O:" ++ join sep_lines o.
+
+(* machine | reference | dump of the code of the successful inputs *)
+Definition show_session (fuel mfuel : nat) (inputs : list (program Z)) : string :=
+  let m := run_session (machine_run1 mfuel) [] [] inputs in
+  let r := run_session (run_ref zops fuel) [] [] inputs in
+  let c := compile (procs zops) (snd m) in
+  show_session_result m ++ " || " ++ show_session_result r
+  ++ " || " ++ (if code_too_large c then "" else show_compiled c).
+
+(* one correspondence case (a single input): machine | reference | dump *)
+Definition show_case (fuel mfuel : nat) (p : program Z) : string := show_session fuel mfuel [p].
+
